@@ -31,7 +31,7 @@ ASSUMPTIONS = ["absent requested labels always come with a fill_value"]
 @st.composite
 def cases(draw, tier="quick"):
     n = draw(st.integers(3, 24))
-    lab = gen.draw_labels(draw, n, kinds=["int", "negint", "float", "str", "bigint"], max_groups=8,
+    lab = gen.draw_labels(draw, n, kinds=["int", "negint", "float", "str", "bigint", "u1", "u8", "i2"], max_groups=8,
                           styles=["random", "random", "periodic", "blocks", "runs", "sorted"])  # fmt: skip
     prov = draw(st.booleans())
     if prov:
@@ -47,7 +47,7 @@ def cases(draw, tier="quick"):
         if v != "nan" and v not in present:
             present.append(v)
     mode = draw(st.sampled_from(["absent", "absent", "sorted", "perm", "perm", "superset"]))
-    extra = {"int": [20, -1], "negint": [100, -100], "bigint": [1, 2**41], "float": [99.5, -99.5], "str": ["y", "A"]}[lab["kind"]]
+    extra = {"int": [20, -1], "negint": [100, -100], "bigint": [1, 2**41], "float": [99.5, -99.5], "str": ["y", "A"], "u1": [7, 100], "u8": [7, 100], "i2": [7, -100]}[lab["kind"]]
     if present and mode != "absent":
         if mode == "sorted":
             labels = sorted(present)
